@@ -1,5 +1,12 @@
 mod construct;
+#[cfg(feature = "has-alloc")]
 mod costream;
+#[cfg(not(feature = "has-alloc"))]
+mod costream {
+    //! no concurrent streams without an allocator
+    #[derive(Default)]
+    pub struct CoLog {}
+}
 mod crash;
 mod driver;
 mod engine_comb;
@@ -20,6 +27,7 @@ mod groups {
 mod nodes;
 mod oracle;
 mod props;
+mod regress;
 mod spec;
 mod val;
 mod world;
@@ -35,6 +43,19 @@ fn arg(args: &[String], name: &str) -> Option<String> {
 fn engine_for(prop: &str, tier: Tier) -> Option<(Arc<dyn Engine>, &'static str, u64, usize, &'static str)> {
     if let Some(p) = props::comb_prop(prop) {
         let e = engine_comb::CombEngine::new(p, tier);
+        // C02 and C03 quantify over the concurrent-stream drivers as well
+        #[cfg(feature = "has-alloc")]
+        if p.id == "C02" || p.id == "C03" {
+            let profile = if p.id == "C02" { props::cp02(tier) } else { props::cp03(tier) };
+            let co = costream::CoEngine { prop: p.id, profile };
+            let m = driver::MultiEngine { parts: vec![(84, Arc::new(e)), (16, Arc::new(co))], name: "comb+co" };
+            return Some((Arc::new(m), p.rule, (p.cases)(tier), (p.max_len)(tier), p.id));
+        }
+        return Some((Arc::new(e), p.rule, (p.cases)(tier), (p.max_len)(tier), p.id));
+    }
+    #[cfg(feature = "has-alloc")]
+    if let Some(p) = props::co_prop(prop) {
+        let e = costream::CoEngine { prop: p.id, profile: (p.profile)(tier) };
         return Some((Arc::new(e), p.rule, (p.cases)(tier), (p.max_len)(tier), p.id));
     }
     #[cfg(feature = "has-alloc")]
@@ -78,9 +99,31 @@ fn main() {
             let ename = engine.name();
             let _ = std::fs::create_dir_all(&replay_dir);
             crash::install(&format!("{}/crash-{}-{}.bin", replay_dir, id, driver::config_name()));
-            let r = driver::run(engine, id, seed, cases, threads, max_len, hang, &replay_dir);
+            // plain regression cases first (they bypass proptest and the decoder)
+            let mut regress_failure = None;
+            let reg = regress::cases(id);
+            let n_regress = reg.len();
+            for rc in reg {
+                let ev = (rc.run)(true);
+                let msgs: Vec<String> =
+                    ev.violations.iter().filter(|v| v.oracle.property() == id).map(|v| format!("{:?}: {}", v.oracle, v.msg)).collect();
+                if !msgs.is_empty() {
+                    regress_failure = Some((rc.name.clone(), driver::Failure { bytes: Vec::new(), show: ev.show, messages: msgs, trace: ev.trace }));
+                    break;
+                }
+            }
+            let mut r = if regress_failure.is_some() {
+                driver::RunResult { stats: driver::Stats::default(), failure: None }
+            } else {
+                driver::run(engine, id, seed, cases, threads, max_len, hang, &replay_dir)
+            };
+            r.stats.regress_cases = n_regress as u64;
             let wall = t0.elapsed().as_secs_f64();
-            let replay = r.failure.as_ref().map(|f| driver::write_replay(&replay_dir, id, ename, f));
+            let mut replay = r.failure.as_ref().map(|f| driver::write_replay(&replay_dir, id, ename, f));
+            if let Some((name, f)) = regress_failure {
+                replay = Some(driver::write_regress_replay(&replay_dir, id, &name, &f));
+                r.failure = Some(f);
+            }
             let tier_s = if tier == Tier::Quick { "quick" } else { "thorough" };
             let frag = driver::fragment_json(id, tier_s, seed, ename, rule, &r, wall, replay.as_deref());
             if let Some(o) = out {
@@ -110,6 +153,30 @@ fn main() {
                 Some(rest[..j].to_string())
             };
             let prop = arg(&args, "--prop").or_else(|| get("property")).expect("property");
+            if let Some(name) = get("regress") {
+                crash::install("");
+                let Some(rc) = regress::cases(&prop).into_iter().find(|r| r.name == name) else {
+                    eprintln!("unknown regression case {}", name);
+                    std::process::exit(2);
+                };
+                let ev = (rc.run)(true);
+                println!("case: {}", ev.show);
+                for l in &ev.trace {
+                    println!("{}", l);
+                }
+                let mut bad = false;
+                for v in &ev.violations {
+                    let mine = v.oracle.property() == prop;
+                    println!("{} {:?}: {}", if mine { "VIOLATED" } else { "(other property)" }, v.oracle, v.msg);
+                    bad |= mine;
+                }
+                if bad {
+                    println!("VIOLATION property={} replay={}", prop, file);
+                    std::process::exit(1);
+                }
+                println!("no violation of {} on this tree", prop);
+                return;
+            }
             let bytes = driver::unhex(&get("bytes").expect("bytes"));
             let tier = match arg(&args, "--tier").as_deref() {
                 Some("thorough") => Tier::Thorough,
